@@ -793,6 +793,14 @@ impl HttpContext {
                             .data_opt(buf)
                             .and_then(|data| from_utf8(data).ok())
                             .map(ToOwned::to_owned);
+                    } else if compare_no_case(key, self.sozu_id_header.as_bytes()) {
+                        // The correlation header is ours: exactly one, carrying
+                        // the id we generated, is appended below. A copy sent
+                        // by the client would reach the backend next to it.
+                        header.elide();
+                    } else if compare_no_case(key, b"X-Request-Id") && has_x_request_id {
+                        // only the first client-supplied request id is kept
+                        header.elide();
                     } else if compare_no_case(key, b"X-Request-Id") {
                         // RFC: not standardized, but the de-facto correlation
                         // header used by Envoy/HAProxy/most LBs. Preserve the
